@@ -104,7 +104,7 @@ def generate(rng, tier):
     ops.sort(key=lambda o: o["t"])
     faults = {"max_delay_us": rng.choice([0, 500, 20000]), "loop_delay_us": rng.choice([0, 300]),
               "dup_p": rng.choice([0.0, 0.05])}
-    return {"ops": ops, "faults": faults, "end": round(base + rng.choice([4.0, 16.0, 30.0]), 6), "big": big}
+    return {"timer_slop_us": rng.choice([0, 0, 0.1]), "ops": ops, "faults": faults, "end": round(base + rng.choice([4.0, 16.0, 30.0]), 6), "big": big}
 
 
 class HostState:
@@ -135,7 +135,8 @@ class HostState:
 
 def execute(scenario, seed, overrides=None):
     out = runner.Outcome()
-    w = World(seed, FaultConfig(**scenario.get("faults", {})), overrides, step_cap=4_000_000)
+    w = World(seed, FaultConfig(**scenario.get("faults", {})), overrides, step_cap=4_000_000,
+              timer_slop=scenario.get("timer_slop_us", 0) / 1e6)
     stats = {"query_tx": 0, "questions_judged": 0, "known_answers_checked": 0, "tc_packets": 0, "suppressible_checked": 0,
              "qm_repeats_within_1s": 0, "heard_as_responder": 0, "lookup_queries": 0, "startup_passes": 0,
              "omitted_because_suppressed": 0}
